@@ -1513,6 +1513,8 @@ impl CoreRuntime {
         }
         if let (Some(kb_meta), Some(kb)) = (self.metadata.keyboard.clone(), self.keyboard.as_mut())
         {
+            // The Python emulator nests the matrix state under "matrix".
+            let kb_meta = kb_meta.get("matrix").cloned().unwrap_or(kb_meta);
             if let Ok(snapshot) = serde_json::from_value::<KeyboardSnapshot>(kb_meta) {
                 kb.load_snapshot_state(&snapshot);
             }
